@@ -39,6 +39,8 @@ type c04Scenario struct {
 	// Solo: at the end, a name that has exactly ONE handler in its set (no sentinels on it), which
 	// mutates that same set from inside the handler: "" none, else fg/bg + ":" + selfremove/add
 	Solo string `json:"solo"`
+	// SoloCase: the letter case the solo handlers are registered under (events arrive as EVSOLO): 0 the same, 1 lower, 2 mixed
+	SoloCase int `json:"solo_case"`
 	// Blocker: a background handler on this name parks its first invocation until the scenario ends
 	Blocker string `json:"blocker"`
 }
@@ -232,6 +234,7 @@ func genC04(t *rapid.T) *c04Scenario {
 	}
 	sc.Ops = append(sc.Ops, c04Op{Op: "event", Name: "EVA"}, c04Op{Op: "event", Name: "evb"}, c04Op{Op: "event", Name: "Evc"}, c04Op{Op: "event", Name: "PING"})
 	sc.Solo = rapid.SampledFrom([]string{"", "fg:selfremove", "fg:add", "bg:selfremove", "bg:add"}).Draw(t, "solo")
+	sc.SoloCase = rapid.IntRange(0, 2).Draw(t, "solo_case")
 	sc.Blocker = rapid.SampledFrom([]string{"", "", "EVA", "evb", "PING"}).Draw(t, "blocker")
 	return sc
 }
@@ -556,7 +559,7 @@ func runC04(sc *c04Scenario) *Violation {
 		}
 	}
 	if sc.Solo != "" {
-		if v := runC04Solo(r, sc.Solo); v != nil {
+		if v := runC04Solo(r, sc.Solo, sc.SoloCase); v != nil {
 			return v
 		}
 	}
@@ -571,10 +574,11 @@ func runC04(sc *c04Scenario) *Violation {
 // runC04Solo: the only handler registered under a name removes itself, or registers a second
 // handler under the same name, from inside its own invocation. The event must complete (no
 // dead-lock), and the following event must invoke exactly the handlers then registered.
-func runC04Solo(r *c04Run, solo string) *Violation {
+func runC04Solo(r *c04Run, solo string, letterCase int) *Violation {
 	bg := strings.HasPrefix(solo, "bg:")
 	script := solo[3:]
 	name := "EVSOLO"
+	regName := []string{"EVSOLO", "evsolo", "EvSolo"}[letterCase%3] // event names are case-insensitive
 	var mu sync.Mutex
 	counts := map[string]int{}
 	var rem client.Remover
@@ -591,9 +595,9 @@ func runC04Solo(r *c04Run, solo string) *Violation {
 			}
 		})
 		if bg {
-			return r.tc.C.HandleBG(name, h)
+			return r.tc.C.HandleBG(regName, h)
 		}
-		return r.tc.C.HandleFunc(name, h)
+		return r.tc.C.HandleFunc(regName, h)
 	}
 	// an event of this name while nothing at all is registered under it, directly followed (no other
 	// verb in between) by the registration and the next event of the same name
